@@ -526,7 +526,7 @@ impl LoaderScope {
             let mut fault = f
                 .rules
                 .iter()
-                .find(|((t, k, o), _)| t == ty && k == key && *o == occ)
+                .find(|((t, k, o), _)| t == ty && k == key && (*o == occ || *o == usize::MAX))
                 .map(|(_, fl)| *fl);
             if fault.is_none() {
                 fault = f.nth_rules.iter().find(|(k, _)| *k == n).map(|(_, fl)| *fl);
